@@ -2,6 +2,7 @@ package completion
 
 import (
 	"unicode"
+	"unicode/utf8"
 
 	"github.com/reeflective/readline/inputrc"
 	"github.com/reeflective/readline/internal/core"
@@ -116,8 +117,9 @@ func (e *Engine) acceptCandidate() {
 	e.inserted = []rune(completion)
 
 	// Remove the line prefix and insert the candidate.
-	e.cursor.Move(-1 * len(e.prefix))
-	e.line.Cut(e.cursor.Pos(), e.cursor.Pos()+len(e.prefix))
+	prefixLen := utf8.RuneCountInString(e.prefix)
+	e.cursor.Move(-1 * prefixLen)
+	e.line.Cut(e.cursor.Pos(), e.cursor.Pos()+prefixLen)
 	e.cursor.InsertAt(e.inserted...)
 
 	// And forget about this inserted completion.
@@ -152,8 +154,9 @@ func (e *Engine) insertCandidate() {
 	e.compCursor.Set(e.cursor.Pos())
 
 	// Remove the line prefix and insert the candidate.
-	e.compCursor.Move(-1 * len(e.prefix))
-	e.compLine.Cut(e.compCursor.Pos(), e.compCursor.Pos()+len(e.prefix))
+	prefixLen := utf8.RuneCountInString(e.prefix)
+	e.compCursor.Move(-1 * prefixLen)
+	e.compLine.Cut(e.compCursor.Pos(), e.compCursor.Pos()+prefixLen)
 	e.compCursor.InsertAt(e.inserted...)
 }
 
